@@ -579,7 +579,10 @@ def explore(scenario, bound, on_outcome, max_exec=200000, free_branch=True, root
         stats['max_points'] = max(stats['max_points'], len(out.points))
         for p in out.points:
             stats['configs'].add(p[3])
-        on_outcome(out)
+        if on_outcome(out):
+            # the caller has what it needs (a violation to report): the rest of this exploration is not needed
+            stats['stopped_early'] = True
+            break
         # preemptions used before each point
         cost = 0
         costs = []
